@@ -96,7 +96,7 @@ Record st := mkSt {
   next_id : nat;
   cbn : nat;            (* callbacks run so far *)
   tr : list event;      (* newest first *)
-  connecting : bool;    (* stream->connect_req != NULL *)
+  connecting : bool;    (* stream->connect_req != NULL and its callback has not been started *)
   derr : Z;             (* stream->delayed_error (0 or -errno) *)
   sockerr : list Z;     (* answers of getsockopt(SO_ERROR) still to come (errno values, 115 = EINPROGRESS) *)
   ipc : bool;           (* the ipc field of the uv_pipe_t *)
@@ -104,37 +104,39 @@ Record st := mkSt {
   connected : bool;     (* the kernel has the socket connected (what connect(2)/shutdown(2) can answer depends on it) *)
   is_tcp : bool;        (* uv_tcp_t (else uv_pipe_t): which connect function a retry goes through *)
   readable : bool;      (* UV_HANDLE_READABLE (only read by uv_pipe_connect2's "not opened yet" test) *)
-  connres : list (option positive)   (* results of the connect(2) calls of later uv_*_connect calls (None = 0/EINPROGRESS) *)
+  connres : list (option positive);  (* results of the connect(2) calls of later uv_*_connect calls (None = 0/EINPROGRESS) *)
+  cancelling : bool     (* inside the UV_ECANCELED callback of a connect request: connect_req is still set *)
 }.
 
-Definition set_wq v s := mkSt v (cq s) (pq s) (wqs s) (shutreq s) (writable s) (shut s) (closing s) (closed s) (blocking s) (fdopen s) (armed s) (fed s) (oracle s) (shutans s) (pollw s) (next_id s) (cbn s) (tr s) (connecting s) (derr s) (sockerr s) (ipc s) (sh_open s) (connected s) (is_tcp s) (readable s) (connres s).
-Definition set_cq v s := mkSt (wq s) v (pq s) (wqs s) (shutreq s) (writable s) (shut s) (closing s) (closed s) (blocking s) (fdopen s) (armed s) (fed s) (oracle s) (shutans s) (pollw s) (next_id s) (cbn s) (tr s) (connecting s) (derr s) (sockerr s) (ipc s) (sh_open s) (connected s) (is_tcp s) (readable s) (connres s).
-Definition set_pq v s := mkSt (wq s) (cq s) v (wqs s) (shutreq s) (writable s) (shut s) (closing s) (closed s) (blocking s) (fdopen s) (armed s) (fed s) (oracle s) (shutans s) (pollw s) (next_id s) (cbn s) (tr s) (connecting s) (derr s) (sockerr s) (ipc s) (sh_open s) (connected s) (is_tcp s) (readable s) (connres s).
-Definition set_wqs v s := mkSt (wq s) (cq s) (pq s) v (shutreq s) (writable s) (shut s) (closing s) (closed s) (blocking s) (fdopen s) (armed s) (fed s) (oracle s) (shutans s) (pollw s) (next_id s) (cbn s) (tr s) (connecting s) (derr s) (sockerr s) (ipc s) (sh_open s) (connected s) (is_tcp s) (readable s) (connres s).
-Definition set_shutreq v s := mkSt (wq s) (cq s) (pq s) (wqs s) v (writable s) (shut s) (closing s) (closed s) (blocking s) (fdopen s) (armed s) (fed s) (oracle s) (shutans s) (pollw s) (next_id s) (cbn s) (tr s) (connecting s) (derr s) (sockerr s) (ipc s) (sh_open s) (connected s) (is_tcp s) (readable s) (connres s).
-Definition set_writable v s := mkSt (wq s) (cq s) (pq s) (wqs s) (shutreq s) v (shut s) (closing s) (closed s) (blocking s) (fdopen s) (armed s) (fed s) (oracle s) (shutans s) (pollw s) (next_id s) (cbn s) (tr s) (connecting s) (derr s) (sockerr s) (ipc s) (sh_open s) (connected s) (is_tcp s) (readable s) (connres s).
-Definition set_shut v s := mkSt (wq s) (cq s) (pq s) (wqs s) (shutreq s) (writable s) v (closing s) (closed s) (blocking s) (fdopen s) (armed s) (fed s) (oracle s) (shutans s) (pollw s) (next_id s) (cbn s) (tr s) (connecting s) (derr s) (sockerr s) (ipc s) (sh_open s) (connected s) (is_tcp s) (readable s) (connres s).
-Definition set_closing v s := mkSt (wq s) (cq s) (pq s) (wqs s) (shutreq s) (writable s) (shut s) v (closed s) (blocking s) (fdopen s) (armed s) (fed s) (oracle s) (shutans s) (pollw s) (next_id s) (cbn s) (tr s) (connecting s) (derr s) (sockerr s) (ipc s) (sh_open s) (connected s) (is_tcp s) (readable s) (connres s).
-Definition set_closed v s := mkSt (wq s) (cq s) (pq s) (wqs s) (shutreq s) (writable s) (shut s) (closing s) v (blocking s) (fdopen s) (armed s) (fed s) (oracle s) (shutans s) (pollw s) (next_id s) (cbn s) (tr s) (connecting s) (derr s) (sockerr s) (ipc s) (sh_open s) (connected s) (is_tcp s) (readable s) (connres s).
-Definition set_blocking v s := mkSt (wq s) (cq s) (pq s) (wqs s) (shutreq s) (writable s) (shut s) (closing s) (closed s) v (fdopen s) (armed s) (fed s) (oracle s) (shutans s) (pollw s) (next_id s) (cbn s) (tr s) (connecting s) (derr s) (sockerr s) (ipc s) (sh_open s) (connected s) (is_tcp s) (readable s) (connres s).
-Definition set_fdopen v s := mkSt (wq s) (cq s) (pq s) (wqs s) (shutreq s) (writable s) (shut s) (closing s) (closed s) (blocking s) v (armed s) (fed s) (oracle s) (shutans s) (pollw s) (next_id s) (cbn s) (tr s) (connecting s) (derr s) (sockerr s) (ipc s) (sh_open s) (connected s) (is_tcp s) (readable s) (connres s).
-Definition set_armed v s := mkSt (wq s) (cq s) (pq s) (wqs s) (shutreq s) (writable s) (shut s) (closing s) (closed s) (blocking s) (fdopen s) v (fed s) (oracle s) (shutans s) (pollw s) (next_id s) (cbn s) (tr s) (connecting s) (derr s) (sockerr s) (ipc s) (sh_open s) (connected s) (is_tcp s) (readable s) (connres s).
-Definition set_fed v s := mkSt (wq s) (cq s) (pq s) (wqs s) (shutreq s) (writable s) (shut s) (closing s) (closed s) (blocking s) (fdopen s) (armed s) v (oracle s) (shutans s) (pollw s) (next_id s) (cbn s) (tr s) (connecting s) (derr s) (sockerr s) (ipc s) (sh_open s) (connected s) (is_tcp s) (readable s) (connres s).
-Definition set_oracle v s := mkSt (wq s) (cq s) (pq s) (wqs s) (shutreq s) (writable s) (shut s) (closing s) (closed s) (blocking s) (fdopen s) (armed s) (fed s) v (shutans s) (pollw s) (next_id s) (cbn s) (tr s) (connecting s) (derr s) (sockerr s) (ipc s) (sh_open s) (connected s) (is_tcp s) (readable s) (connres s).
-Definition set_shutans v s := mkSt (wq s) (cq s) (pq s) (wqs s) (shutreq s) (writable s) (shut s) (closing s) (closed s) (blocking s) (fdopen s) (armed s) (fed s) (oracle s) v (pollw s) (next_id s) (cbn s) (tr s) (connecting s) (derr s) (sockerr s) (ipc s) (sh_open s) (connected s) (is_tcp s) (readable s) (connres s).
-Definition set_pollw v s := mkSt (wq s) (cq s) (pq s) (wqs s) (shutreq s) (writable s) (shut s) (closing s) (closed s) (blocking s) (fdopen s) (armed s) (fed s) (oracle s) (shutans s) v (next_id s) (cbn s) (tr s) (connecting s) (derr s) (sockerr s) (ipc s) (sh_open s) (connected s) (is_tcp s) (readable s) (connres s).
-Definition set_next_id v s := mkSt (wq s) (cq s) (pq s) (wqs s) (shutreq s) (writable s) (shut s) (closing s) (closed s) (blocking s) (fdopen s) (armed s) (fed s) (oracle s) (shutans s) (pollw s) v (cbn s) (tr s) (connecting s) (derr s) (sockerr s) (ipc s) (sh_open s) (connected s) (is_tcp s) (readable s) (connres s).
-Definition set_cbn v s := mkSt (wq s) (cq s) (pq s) (wqs s) (shutreq s) (writable s) (shut s) (closing s) (closed s) (blocking s) (fdopen s) (armed s) (fed s) (oracle s) (shutans s) (pollw s) (next_id s) v (tr s) (connecting s) (derr s) (sockerr s) (ipc s) (sh_open s) (connected s) (is_tcp s) (readable s) (connres s).
-Definition set_connecting v s := mkSt (wq s) (cq s) (pq s) (wqs s) (shutreq s) (writable s) (shut s) (closing s) (closed s) (blocking s) (fdopen s) (armed s) (fed s) (oracle s) (shutans s) (pollw s) (next_id s) (cbn s) (tr s) v (derr s) (sockerr s) (ipc s) (sh_open s) (connected s) (is_tcp s) (readable s) (connres s).
-Definition set_derr v s := mkSt (wq s) (cq s) (pq s) (wqs s) (shutreq s) (writable s) (shut s) (closing s) (closed s) (blocking s) (fdopen s) (armed s) (fed s) (oracle s) (shutans s) (pollw s) (next_id s) (cbn s) (tr s) (connecting s) v (sockerr s) (ipc s) (sh_open s) (connected s) (is_tcp s) (readable s) (connres s).
-Definition set_sockerr v s := mkSt (wq s) (cq s) (pq s) (wqs s) (shutreq s) (writable s) (shut s) (closing s) (closed s) (blocking s) (fdopen s) (armed s) (fed s) (oracle s) (shutans s) (pollw s) (next_id s) (cbn s) (tr s) (connecting s) (derr s) v (ipc s) (sh_open s) (connected s) (is_tcp s) (readable s) (connres s).
-Definition set_ipc v s := mkSt (wq s) (cq s) (pq s) (wqs s) (shutreq s) (writable s) (shut s) (closing s) (closed s) (blocking s) (fdopen s) (armed s) (fed s) (oracle s) (shutans s) (pollw s) (next_id s) (cbn s) (tr s) (connecting s) (derr s) (sockerr s) v (sh_open s) (connected s) (is_tcp s) (readable s) (connres s).
-Definition set_sh_open v s := mkSt (wq s) (cq s) (pq s) (wqs s) (shutreq s) (writable s) (shut s) (closing s) (closed s) (blocking s) (fdopen s) (armed s) (fed s) (oracle s) (shutans s) (pollw s) (next_id s) (cbn s) (tr s) (connecting s) (derr s) (sockerr s) (ipc s) v (connected s) (is_tcp s) (readable s) (connres s).
-Definition set_connected v s := mkSt (wq s) (cq s) (pq s) (wqs s) (shutreq s) (writable s) (shut s) (closing s) (closed s) (blocking s) (fdopen s) (armed s) (fed s) (oracle s) (shutans s) (pollw s) (next_id s) (cbn s) (tr s) (connecting s) (derr s) (sockerr s) (ipc s) (sh_open s) v (is_tcp s) (readable s) (connres s).
-Definition set_is_tcp v s := mkSt (wq s) (cq s) (pq s) (wqs s) (shutreq s) (writable s) (shut s) (closing s) (closed s) (blocking s) (fdopen s) (armed s) (fed s) (oracle s) (shutans s) (pollw s) (next_id s) (cbn s) (tr s) (connecting s) (derr s) (sockerr s) (ipc s) (sh_open s) (connected s) v (readable s) (connres s).
-Definition set_readable v s := mkSt (wq s) (cq s) (pq s) (wqs s) (shutreq s) (writable s) (shut s) (closing s) (closed s) (blocking s) (fdopen s) (armed s) (fed s) (oracle s) (shutans s) (pollw s) (next_id s) (cbn s) (tr s) (connecting s) (derr s) (sockerr s) (ipc s) (sh_open s) (connected s) (is_tcp s) v (connres s).
-Definition set_connres v s := mkSt (wq s) (cq s) (pq s) (wqs s) (shutreq s) (writable s) (shut s) (closing s) (closed s) (blocking s) (fdopen s) (armed s) (fed s) (oracle s) (shutans s) (pollw s) (next_id s) (cbn s) (tr s) (connecting s) (derr s) (sockerr s) (ipc s) (sh_open s) (connected s) (is_tcp s) (readable s) v.
-Definition ev (e : event) s := mkSt (wq s) (cq s) (pq s) (wqs s) (shutreq s) (writable s) (shut s) (closing s) (closed s) (blocking s) (fdopen s) (armed s) (fed s) (oracle s) (shutans s) (pollw s) (next_id s) (cbn s) (e :: tr s) (connecting s) (derr s) (sockerr s) (ipc s) (sh_open s) (connected s) (is_tcp s) (readable s) (connres s).
+Definition set_wq v s := mkSt v (cq s) (pq s) (wqs s) (shutreq s) (writable s) (shut s) (closing s) (closed s) (blocking s) (fdopen s) (armed s) (fed s) (oracle s) (shutans s) (pollw s) (next_id s) (cbn s) (tr s) (connecting s) (derr s) (sockerr s) (ipc s) (sh_open s) (connected s) (is_tcp s) (readable s) (connres s) (cancelling s).
+Definition set_cq v s := mkSt (wq s) v (pq s) (wqs s) (shutreq s) (writable s) (shut s) (closing s) (closed s) (blocking s) (fdopen s) (armed s) (fed s) (oracle s) (shutans s) (pollw s) (next_id s) (cbn s) (tr s) (connecting s) (derr s) (sockerr s) (ipc s) (sh_open s) (connected s) (is_tcp s) (readable s) (connres s) (cancelling s).
+Definition set_pq v s := mkSt (wq s) (cq s) v (wqs s) (shutreq s) (writable s) (shut s) (closing s) (closed s) (blocking s) (fdopen s) (armed s) (fed s) (oracle s) (shutans s) (pollw s) (next_id s) (cbn s) (tr s) (connecting s) (derr s) (sockerr s) (ipc s) (sh_open s) (connected s) (is_tcp s) (readable s) (connres s) (cancelling s).
+Definition set_wqs v s := mkSt (wq s) (cq s) (pq s) v (shutreq s) (writable s) (shut s) (closing s) (closed s) (blocking s) (fdopen s) (armed s) (fed s) (oracle s) (shutans s) (pollw s) (next_id s) (cbn s) (tr s) (connecting s) (derr s) (sockerr s) (ipc s) (sh_open s) (connected s) (is_tcp s) (readable s) (connres s) (cancelling s).
+Definition set_shutreq v s := mkSt (wq s) (cq s) (pq s) (wqs s) v (writable s) (shut s) (closing s) (closed s) (blocking s) (fdopen s) (armed s) (fed s) (oracle s) (shutans s) (pollw s) (next_id s) (cbn s) (tr s) (connecting s) (derr s) (sockerr s) (ipc s) (sh_open s) (connected s) (is_tcp s) (readable s) (connres s) (cancelling s).
+Definition set_writable v s := mkSt (wq s) (cq s) (pq s) (wqs s) (shutreq s) v (shut s) (closing s) (closed s) (blocking s) (fdopen s) (armed s) (fed s) (oracle s) (shutans s) (pollw s) (next_id s) (cbn s) (tr s) (connecting s) (derr s) (sockerr s) (ipc s) (sh_open s) (connected s) (is_tcp s) (readable s) (connres s) (cancelling s).
+Definition set_shut v s := mkSt (wq s) (cq s) (pq s) (wqs s) (shutreq s) (writable s) v (closing s) (closed s) (blocking s) (fdopen s) (armed s) (fed s) (oracle s) (shutans s) (pollw s) (next_id s) (cbn s) (tr s) (connecting s) (derr s) (sockerr s) (ipc s) (sh_open s) (connected s) (is_tcp s) (readable s) (connres s) (cancelling s).
+Definition set_closing v s := mkSt (wq s) (cq s) (pq s) (wqs s) (shutreq s) (writable s) (shut s) v (closed s) (blocking s) (fdopen s) (armed s) (fed s) (oracle s) (shutans s) (pollw s) (next_id s) (cbn s) (tr s) (connecting s) (derr s) (sockerr s) (ipc s) (sh_open s) (connected s) (is_tcp s) (readable s) (connres s) (cancelling s).
+Definition set_closed v s := mkSt (wq s) (cq s) (pq s) (wqs s) (shutreq s) (writable s) (shut s) (closing s) v (blocking s) (fdopen s) (armed s) (fed s) (oracle s) (shutans s) (pollw s) (next_id s) (cbn s) (tr s) (connecting s) (derr s) (sockerr s) (ipc s) (sh_open s) (connected s) (is_tcp s) (readable s) (connres s) (cancelling s).
+Definition set_blocking v s := mkSt (wq s) (cq s) (pq s) (wqs s) (shutreq s) (writable s) (shut s) (closing s) (closed s) v (fdopen s) (armed s) (fed s) (oracle s) (shutans s) (pollw s) (next_id s) (cbn s) (tr s) (connecting s) (derr s) (sockerr s) (ipc s) (sh_open s) (connected s) (is_tcp s) (readable s) (connres s) (cancelling s).
+Definition set_fdopen v s := mkSt (wq s) (cq s) (pq s) (wqs s) (shutreq s) (writable s) (shut s) (closing s) (closed s) (blocking s) v (armed s) (fed s) (oracle s) (shutans s) (pollw s) (next_id s) (cbn s) (tr s) (connecting s) (derr s) (sockerr s) (ipc s) (sh_open s) (connected s) (is_tcp s) (readable s) (connres s) (cancelling s).
+Definition set_armed v s := mkSt (wq s) (cq s) (pq s) (wqs s) (shutreq s) (writable s) (shut s) (closing s) (closed s) (blocking s) (fdopen s) v (fed s) (oracle s) (shutans s) (pollw s) (next_id s) (cbn s) (tr s) (connecting s) (derr s) (sockerr s) (ipc s) (sh_open s) (connected s) (is_tcp s) (readable s) (connres s) (cancelling s).
+Definition set_fed v s := mkSt (wq s) (cq s) (pq s) (wqs s) (shutreq s) (writable s) (shut s) (closing s) (closed s) (blocking s) (fdopen s) (armed s) v (oracle s) (shutans s) (pollw s) (next_id s) (cbn s) (tr s) (connecting s) (derr s) (sockerr s) (ipc s) (sh_open s) (connected s) (is_tcp s) (readable s) (connres s) (cancelling s).
+Definition set_oracle v s := mkSt (wq s) (cq s) (pq s) (wqs s) (shutreq s) (writable s) (shut s) (closing s) (closed s) (blocking s) (fdopen s) (armed s) (fed s) v (shutans s) (pollw s) (next_id s) (cbn s) (tr s) (connecting s) (derr s) (sockerr s) (ipc s) (sh_open s) (connected s) (is_tcp s) (readable s) (connres s) (cancelling s).
+Definition set_shutans v s := mkSt (wq s) (cq s) (pq s) (wqs s) (shutreq s) (writable s) (shut s) (closing s) (closed s) (blocking s) (fdopen s) (armed s) (fed s) (oracle s) v (pollw s) (next_id s) (cbn s) (tr s) (connecting s) (derr s) (sockerr s) (ipc s) (sh_open s) (connected s) (is_tcp s) (readable s) (connres s) (cancelling s).
+Definition set_pollw v s := mkSt (wq s) (cq s) (pq s) (wqs s) (shutreq s) (writable s) (shut s) (closing s) (closed s) (blocking s) (fdopen s) (armed s) (fed s) (oracle s) (shutans s) v (next_id s) (cbn s) (tr s) (connecting s) (derr s) (sockerr s) (ipc s) (sh_open s) (connected s) (is_tcp s) (readable s) (connres s) (cancelling s).
+Definition set_next_id v s := mkSt (wq s) (cq s) (pq s) (wqs s) (shutreq s) (writable s) (shut s) (closing s) (closed s) (blocking s) (fdopen s) (armed s) (fed s) (oracle s) (shutans s) (pollw s) v (cbn s) (tr s) (connecting s) (derr s) (sockerr s) (ipc s) (sh_open s) (connected s) (is_tcp s) (readable s) (connres s) (cancelling s).
+Definition set_cbn v s := mkSt (wq s) (cq s) (pq s) (wqs s) (shutreq s) (writable s) (shut s) (closing s) (closed s) (blocking s) (fdopen s) (armed s) (fed s) (oracle s) (shutans s) (pollw s) (next_id s) v (tr s) (connecting s) (derr s) (sockerr s) (ipc s) (sh_open s) (connected s) (is_tcp s) (readable s) (connres s) (cancelling s).
+Definition set_connecting v s := mkSt (wq s) (cq s) (pq s) (wqs s) (shutreq s) (writable s) (shut s) (closing s) (closed s) (blocking s) (fdopen s) (armed s) (fed s) (oracle s) (shutans s) (pollw s) (next_id s) (cbn s) (tr s) v (derr s) (sockerr s) (ipc s) (sh_open s) (connected s) (is_tcp s) (readable s) (connres s) (cancelling s).
+Definition set_derr v s := mkSt (wq s) (cq s) (pq s) (wqs s) (shutreq s) (writable s) (shut s) (closing s) (closed s) (blocking s) (fdopen s) (armed s) (fed s) (oracle s) (shutans s) (pollw s) (next_id s) (cbn s) (tr s) (connecting s) v (sockerr s) (ipc s) (sh_open s) (connected s) (is_tcp s) (readable s) (connres s) (cancelling s).
+Definition set_sockerr v s := mkSt (wq s) (cq s) (pq s) (wqs s) (shutreq s) (writable s) (shut s) (closing s) (closed s) (blocking s) (fdopen s) (armed s) (fed s) (oracle s) (shutans s) (pollw s) (next_id s) (cbn s) (tr s) (connecting s) (derr s) v (ipc s) (sh_open s) (connected s) (is_tcp s) (readable s) (connres s) (cancelling s).
+Definition set_ipc v s := mkSt (wq s) (cq s) (pq s) (wqs s) (shutreq s) (writable s) (shut s) (closing s) (closed s) (blocking s) (fdopen s) (armed s) (fed s) (oracle s) (shutans s) (pollw s) (next_id s) (cbn s) (tr s) (connecting s) (derr s) (sockerr s) v (sh_open s) (connected s) (is_tcp s) (readable s) (connres s) (cancelling s).
+Definition set_sh_open v s := mkSt (wq s) (cq s) (pq s) (wqs s) (shutreq s) (writable s) (shut s) (closing s) (closed s) (blocking s) (fdopen s) (armed s) (fed s) (oracle s) (shutans s) (pollw s) (next_id s) (cbn s) (tr s) (connecting s) (derr s) (sockerr s) (ipc s) v (connected s) (is_tcp s) (readable s) (connres s) (cancelling s).
+Definition set_connected v s := mkSt (wq s) (cq s) (pq s) (wqs s) (shutreq s) (writable s) (shut s) (closing s) (closed s) (blocking s) (fdopen s) (armed s) (fed s) (oracle s) (shutans s) (pollw s) (next_id s) (cbn s) (tr s) (connecting s) (derr s) (sockerr s) (ipc s) (sh_open s) v (is_tcp s) (readable s) (connres s) (cancelling s).
+Definition set_is_tcp v s := mkSt (wq s) (cq s) (pq s) (wqs s) (shutreq s) (writable s) (shut s) (closing s) (closed s) (blocking s) (fdopen s) (armed s) (fed s) (oracle s) (shutans s) (pollw s) (next_id s) (cbn s) (tr s) (connecting s) (derr s) (sockerr s) (ipc s) (sh_open s) (connected s) v (readable s) (connres s) (cancelling s).
+Definition set_readable v s := mkSt (wq s) (cq s) (pq s) (wqs s) (shutreq s) (writable s) (shut s) (closing s) (closed s) (blocking s) (fdopen s) (armed s) (fed s) (oracle s) (shutans s) (pollw s) (next_id s) (cbn s) (tr s) (connecting s) (derr s) (sockerr s) (ipc s) (sh_open s) (connected s) (is_tcp s) v (connres s) (cancelling s).
+Definition set_connres v s := mkSt (wq s) (cq s) (pq s) (wqs s) (shutreq s) (writable s) (shut s) (closing s) (closed s) (blocking s) (fdopen s) (armed s) (fed s) (oracle s) (shutans s) (pollw s) (next_id s) (cbn s) (tr s) (connecting s) (derr s) (sockerr s) (ipc s) (sh_open s) (connected s) (is_tcp s) (readable s) v (cancelling s).
+Definition set_cancelling v s := mkSt (wq s) (cq s) (pq s) (wqs s) (shutreq s) (writable s) (shut s) (closing s) (closed s) (blocking s) (fdopen s) (armed s) (fed s) (oracle s) (shutans s) (pollw s) (next_id s) (cbn s) (tr s) (connecting s) (derr s) (sockerr s) (ipc s) (sh_open s) (connected s) (is_tcp s) (readable s) (connres s) v.
+Definition ev (e : event) s := mkSt (wq s) (cq s) (pq s) (wqs s) (shutreq s) (writable s) (shut s) (closing s) (closed s) (blocking s) (fdopen s) (armed s) (fed s) (oracle s) (shutans s) (pollw s) (next_id s) (cbn s) (e :: tr s) (connecting s) (derr s) (sockerr s) (ipc s) (sh_open s) (connected s) (is_tcp s) (readable s) (connres s) (cancelling s).
 
 (* How the stream came to be.  [None]: opened connected with uv_pipe_open /
    uv_tcp_open on a read-write descriptor.  [Some (tcp, cres, so)]: right after
@@ -163,17 +165,17 @@ Definition conn_derr (cres : option positive) : Z :=
 Definition init (blk : bool) (o : list answer) (sa : Z) (pw : list bool) (c : conn_cfg) (ip : bool) : st :=
   match c with
   | None => mkSt [] [] [] 0 false true false false false blk true false false o sa pw O O [] false 0%Z [] ip true
-                 true false true []
+                 true false true [] false
   | Some (tcp, cres, so, cr) =>
       if conn_pending_ok cres then
         mkSt [] [] [] 0 false true false false false blk true true false o sa pw O O [] true 0%Z so ip true
-             false tcp true cr
+             false tcp true cr false
       else if tcp then    (* ECONNREFUSED: delayed_error, POLLOUT started, watcher fed *)
         mkSt [] [] [] 0 false true false false false blk true true true o sa pw O O [] true (conn_derr cres) so ip true
-             false tcp true cr
+             false tcp true cr false
       else                (* pipe: flags not set, POLLOUT not started, watcher fed *)
         mkSt [] [] [] 0 false false false false false blk true false true o sa pw O O [] true (conn_derr cres) so ip true
-             false tcp false cr
+             false tcp false cr false
   end.
 
 Fixpoint sumN (l : list N) : N :=
@@ -379,7 +381,7 @@ Definition api_write2_nomem (s : st) (bufs : list N) : st :=
 Definition api_try (s : st) (bufs : list N) : st :=
   let id := next_id s in
   let s := ev (ETry id (sumN bufs)) (set_next_id (S id) s) in
-  if connecting s || negb (wqs s =? 0) then ev (ETryRet id UV_EAGAIN) s
+  if connecting s || cancelling s || negb (wqs s =? 0) then ev (ETryRet id UV_EAGAIN) s
   else match check_before_write s with
   | Some e => ev (ETryRet id e) s
   | None =>
@@ -397,7 +399,9 @@ Definition api_shutdown (s : st) : st :=
   if negb (writable s) || shut s || shutreq s || closing s || closed s then ev (EShut UV_ENOTCONN) s
   else
     let s1 := set_writable false (set_shutreq true s) in
-    let s2 := match wq s1 with [] => set_fed true s1 | _ => s1 end in
+    (* if (connect_req == NULL && uv__queue_empty(&write_queue)) uv__io_feed(): while a connect
+       is pending the shutdown waits for it like the writes do *)
+    let s2 := if connecting s1 then s1 else match wq s1 with [] => set_fed true s1 | _ => s1 end in
     ev (EShut 0%Z) s2.
 
 (* uv_close on the stream: flag, uv__io_close, clear WRITABLE, close the fd *)
@@ -487,6 +491,7 @@ Definition shutdown_answer (s : st) : Z := if connected s then shutans s else UV
 
 (* uv__drain *)
 Definition drain (s : st) : st :=
+  (* uv__io_stop(POLLOUT) - also when a connect started from a callback is waiting for it *)
   let s1 := if closing s then s else set_armed false s in
   if negb (shutreq s1) then s1
   else if closing s1 || negb (shut s1) then
@@ -536,14 +541,19 @@ Definition stream_io (s : st) : st :=
   else
   let s1 := uv_write_queue s in
   let s2 := write_callbacks s1 in
-  (* if (uv__queue_empty(&write_queue) && uv__queue_empty(&write_completed_queue)) uv__drain() *)
-  match wq s2, cq s2 with [], [] => drain s2 | _, _ => s2 end.
+  (* if (connect_req == NULL && uv__queue_empty(&write_queue) &&
+         uv__queue_empty(&write_completed_queue)) uv__drain();
+     a connect started from a write callback keeps its POLLOUT *)
+  if connecting s2 then s2
+  else match wq s2, cq s2 with [], [] => drain s2 | _, _ => s2 end.
 
 (* uv__finish_close -> uv__stream_destroy, close_cb *)
 Definition destroy (s : st) : st :=
   let s0 := set_closed true s in
   let s1 := if connecting s0         (* connect_req->cb(connect_req, UV_ECANCELED); connect_req = NULL; *)
-            then set_connecting false (run_cb (ev (EConnCb UV_ECANCELED) s0)) else s0 in
+            then set_cancelling false
+                   (run_cb (ev (EConnCb UV_ECANCELED) (set_cancelling true (set_connecting false s0))))
+            else s0 in
   ev ECloseCb (drain (write_callbacks (flush s1))).
 
 (* uv__run_pending for this watcher *)
